@@ -147,7 +147,8 @@ class _VersionMatch(GenericEquality, restriction.base):
             (
                 self.droprev,
                 self.ver,
-                self.rev,
+                # a missing revision (None, "") compares equal to revision 0
+                self.rev or 0,
                 self.droprev and self.negate,
                 self._convert_ops(self),
             )
